@@ -105,11 +105,13 @@ func verifAsciiString(n int) string {
 }
 
 // verifSymbolicMap: one series per metric type (presence symbolic) with symbolic payloads.
-func verifSymbolicMap() *gostatsd.MetricMap {
+func verifSymbolicMap() *gostatsd.MetricMap { return verifSymbolicMapN(1) }
+
+func verifSymbolicMapN(n int) *gostatsd.MetricMap {
 	mm := gostatsd.NewMetricMap(false)
-	name := verifAsciiString(1)
-	tag := verifAsciiString(1)
-	src := gostatsd.Source(verifAsciiString(1))
+	name := verifAsciiString(n)
+	tag := verifAsciiString(n)
+	src := gostatsd.Source(verifAsciiString(n))
 	var tags gostatsd.Tags
 	if nondetBool() {
 		tags = gostatsd.Tags{tag}
@@ -215,10 +217,15 @@ func verifCompression() (bool, web.CompressionType) {
 }
 
 // VerifC14_Metrics: forwarder -> wire -> ingesting server, no faults.
-func VerifC14_Metrics() {
+func VerifC14_Metrics() { verifC14Metrics(1) }
+
+// names, tags and sources of three symbolic bytes (thorough tier)
+func VerifC14_Metrics3() { verifC14Metrics(3) }
+
+func verifC14Metrics(n int) {
 	compress, ct := verifCompression()
 	hfh, up := verifNewForwarder(false, 1, compress, ct, 30*time.Second)
-	mm := verifSymbolicMap()
+	mm := verifSymbolicMapN(n)
 	hfh.postMetrics(context.Background(), mm, "", 7)
 	verifAssert(up.attempts == 1 && up.lastStatus == 202, "the request is accepted with 202")
 	verifAssert(len(up.rec.maps) == 1, "the ingesting server dispatches exactly one map")
